@@ -9,7 +9,7 @@ func init() {
 	register(&propDef{
 		id: "C02", title: "Accepted messages to a live actor are processed exactly once",
 		technique: "go/cfg path rules: publish-then-wake (Enqueue ⇒◇ TrySchedule ⇒ schedule), release–recheck–reclaim at every ownership-flag release, turn-exit classification, single-consumer who-may-call",
-		explanation: "Decides the lost-wake-up and single-consumer protocol shape: (1) every producer onto an actor's own mailbox performs Enqueue, then on every non-error path TrySchedule, and a won TrySchedule always reaches dispatcher.schedule; every Enqueue site on those mailboxes is such a producer; (2) every release of an ownership flag (schedState.reset in finishOrReclaim; senderBox.active.Store(false) in the fair mailbox) is followed on every path by a re-read of the work indicator and a conditional re-acquire, and the emptiness test never precedes the release; fair-mailbox producers always test the active flag after publishing; (3) every exit of runTurn after the take is finishOrReclaim()==true or YieldToScheduled followed by reschedule; (4) in doReceive a failed Enqueue reaches handleReceivedError and not the scheduler, a successful one never reaches handleReceivedError; (5) the actor mailboxes are dequeued only by the turn loops (stash box only by unstash/unstashAll). Exactly-once across restarts and scheduler liveness are not decided.",
+		explanation: "Decides the lost-wake-up and single-consumer protocol shape: (1) every producer onto an actor's own mailbox performs Enqueue, then on every non-error path TrySchedule, and a won TrySchedule always reaches dispatcher.schedule; every Enqueue site on those mailboxes is such a producer; (2) every release of an ownership flag (schedState.reset in finishOrReclaim; senderBox.active.Store(false) in the fair mailbox) is followed on every path by a re-read of the work indicator and a conditional re-acquire, and the emptiness test never precedes the release; fair-mailbox producers always test the active flag after publishing; (3) every exit of runTurn after the take is finishOrReclaim()==true or YieldToScheduled followed by reschedule; (4) in doReceive a failed Enqueue reaches handleReceivedError and not the scheduler, a successful one never reaches handleReceivedError; (5) the actor mailboxes are dequeued only by the turn loops (stash box only by unstash/unstashAll). Exactly-once across restarts and scheduler liveness are not decided. Added after seed C02b: a counter that any party updates with an atomic read-modify-write (the length the emptiness re-check reads) is never overwritten by a Store of a value computed from an earlier Load of the same field of the same object (the pair is not atomic: a producer's increment in between is lost and IsEmpty reports an accepted message away).",
 		assumptions: []string{"exactly-once delivery while a restart is in flight", "liveness of the worker pool (a scheduled actor is eventually run)", "internal correctness of each mailbox under interleavings (see C04)"},
 		minObl:     45,
 		run:        runC02,
@@ -108,6 +108,15 @@ func runC02(c *Ctx) {
 			"actor.(*PID).doReceive": "producer", "actor.(*grainPID).receive": "producer", "actor.(*grainPID).enqueueEnvelope": "producer",
 			"actor.(*grainPID).deliverTimerTick": "producer", "actor.(*grainPID).enqueuePassivationPill": "producer",
 		})
+	})
+
+	// (1b) the re-check after release reads the mailbox's own emptiness: a length counter that producers bump with
+	// an atomic add must not be overwritten by a load-then-store of the consumer (a lost increment makes IsEmpty
+	// report an accepted message away, and nothing wakes the actor for it)
+	c.Rule("emptiness-counter", func() {
+		if n := c.NoLostUpdate("rmw", "actor"); n < 1 {
+			c.Undecided("count", "at least one Store on a field that is also updated by read-modify-write", "-", "found none")
+		}
 	})
 
 	// (2) release–recheck–reclaim
